@@ -20,6 +20,11 @@ func (r *FragRule) RunPass(ctx *Context, pass Pass) {
 			Pos: r.Bounds().Begin,
 		}
 
+		// The lexer stops interpreting the action list at the first @emit or
+		// @discard. They go last so that every mode action takes effect regardless
+		// of the order the actions were written in.
+		var lastActions []mode.Action
+
 		hasDiscard := false
 		hasEmit := false
 		for _, actAST := range r.Actions {
@@ -33,6 +38,8 @@ func (r *FragRule) RunPass(ctx *Context, pass Pass) {
 					return
 				}
 				hasDiscard = true
+				lastActions = append(lastActions, act)
+				continue
 			case mode.ActionAccept:
 				if hasEmit {
 					ctx.Errs.Errorf(
@@ -41,9 +48,12 @@ func (r *FragRule) RunPass(ctx *Context, pass Pass) {
 					return
 				}
 				hasEmit = true
+				lastActions = append(lastActions, act)
+				continue
 			}
 			actions.Actions = append(actions.Actions, act)
 		}
+		actions.Actions = append(actions.Actions, lastActions...)
 
 		if !hasDiscard && !hasEmit {
 			actions.Actions = append(actions.Actions, mode.Action{
